@@ -215,4 +215,64 @@ example : (segAt true [⟨-5, -8, 5, 8⟩] 0 zc 1).map (fun s => (s.seg.fixed, s
 example : (passSegs false false true [⟨.shape, ⟨-5, -8, 5, 8⟩, ⟨-5, -8, 5, 8⟩, true⟩, ⟨.shape, ⟨8, 12, 12, 20⟩, ⟨8, 12, 12, 20⟩, true⟩] 0 [{ zc with cache := [] }]).map
       (fun s => (s.seg.minLim, s.seg.maxLim)) = [(-5, 5), (12, 35)] := by decide +kernel
 
+/-! ### joint non-vacuity: ALL hypotheses of a theorem on one instance, and the theorem instantiated on it -/
+
+/-- the middle (z-bend) segment of `zc` in dimension 1 -/
+def zcMid : MSeg := ⟨1, 2, ⟨7, 0, 20, 10, 5, 30, false, false, false, false, false, true, []⟩⟩
+/-- the first segment of `zc` in dimension 0, option off (fixed: end segment, and it carries the checkpoint) -/
+def zcFirstOff : MSeg := ⟨0, 1, ⟨7, 0, 10, 0, 0, 0, true, false, false, false, false, false, []⟩⟩
+/-- the first segment of `zc` in dimension 0, option on, source inside the shape [-5,5]×[-8,8] -/
+def zcFirstOn : MSeg := ⟨0, 1, ⟨7, 0, 10, 0, -5, 5, false, true, true, false, false, false, []⟩⟩
+
+-- non-vacuity (joint) of `end_segment_fixed_without_option`, `checkpoint_segment_is_fixed`
+example : segAt false [] 0 zc 1 = some zcFirstOff ∧ (1 = 1 ∨ 1 + 1 = zc.ps.length) ∧ cpsOnSegment zc.cache (1 - 1) 0 ≠ [] ∧
+    zcFirstOff.seg.fixed = true ∧ zcFirstOff.seg.cps = [] :=
+  have h : segAt false [] 0 zc 1 = some zcFirstOff := by decide +kernel
+  have hc : cpsOnSegment zc.cache (1 - 1) 0 ≠ [] := by decide +kernel
+  ⟨h, Or.inl rfl, hc, (end_segment_fixed_without_option [] 0 zc 1 _ (Or.inl rfl) h).1,
+    (checkpoint_segment_is_fixed [] 0 zc 1 _ h hc).2.2.2⟩
+
+-- non-vacuity (joint) of `end_segment_rule` (the second alternative: a final segment limited to the shape)
+example : segAt true [⟨-5, -8, 5, 8⟩] 0 zc 1 = some zcFirstOn ∧ zc.ps[1 - 1]? = some ⟨0, 0⟩ ∧ zc.ps[1]? = some ⟨0, 10⟩ ∧
+    zcFirstOn.seg.fixed = false ∧ -5 ≤ zcFirstOn.seg.minLim ∧ zcFirstOn.seg.maxLim ≤ 5 := by
+  have h : segAt true [⟨-5, -8, 5, 8⟩] 0 zc 1 = some zcFirstOn := by decide +kernel
+  refine ⟨h, rfl, rfl, rfl, ?_⟩
+  rcases end_segment_rule [⟨-5, -8, 5, 8⟩] 0 zc 1 _ ⟨0, 0⟩ ⟨0, 10⟩ (Or.inl rfl) rfl rfl h with hf | hr
+  · exact absurd hf.1 (by decide)
+  · exact hr.2.2.2.2.2.2.2.1 ⟨-5, -8, 5, 8⟩ (List.mem_singleton.mpr rfl) (Or.inl (by decide +kernel))
+
+-- non-vacuity (joint) of `adjacent_checkpoint_bounds`, `zigzag_limits`, `limits_contain_pos`, `segment_geometry`:
+-- the middle segment of `zc`, the checkpoint (0,5) on the preceding segment
+example : segAt false [] 1 zc 2 = some zcMid ∧ ¬ (2 = 1 ∨ 2 + 1 = zc.ps.length) ∧ zcMid.seg.fixed = false ∧
+    (⟨0, 5⟩ : Pt) ∈ cpsOnSegment zc.cache (2 - 2) 2 ∧ Pt.c ⟨0, 5⟩ 1 < zcMid.seg.pos ∧ Pt.c ⟨0, 5⟩ 1 ≤ zcMid.seg.minLim ∧
+    zcMid.seg.zBend = true ∧ zc.ps[2 - 2]? = some ⟨0, 0⟩ ∧ zc.ps[2 + 1]? = some ⟨20, 30⟩ ∧
+    Pt.c ⟨0, 0⟩ 1 < zcMid.seg.pos ∧ zcMid.seg.minLim ≤ zcMid.seg.pos := by
+  have h : segAt false [] 1 zc 2 = some zcMid := by decide +kernel
+  have hm : ¬ (2 = 1 ∨ 2 + 1 = zc.ps.length) := by decide
+  have hcp : (⟨0, 5⟩ : Pt) ∈ cpsOnSegment zc.cache (2 - 2) 2 := by decide +kernel
+  have hlt : Pt.c ⟨0, 5⟩ 1 < zcMid.seg.pos := by decide +kernel
+  exact ⟨h, hm, rfl, hcp, hlt, (adjacent_checkpoint_bounds false [] 1 zc 2 _ h hm rfl _ (Or.inr hcp)).1 hlt, rfl, rfl, rfl,
+    ((zigzag_limits false [] 1 zc 2 _ ⟨0, 0⟩ ⟨20, 30⟩ h (Or.inr rfl) rfl rfl).2.2.2.2.2.1 rfl).1,
+    (limits_contain_pos false [] 1 zc 2 _ h (by decide +kernel) (by decide +kernel)).1⟩
+
+-- non-vacuity of `last_segment_is_first_of_reversed` (both sides are `some`)
+example : segAt false [] 0 zc.rev 1 = (segAt false [] 0 zc (zc.ps.length - 1)).map (MSeg.mirror zc.ps.length) ∧
+    (segAt false [] 0 zc.rev 1).isSome = true :=
+  ⟨last_segment_is_first_of_reversed false [] 0 zc (by intro e he; simp [zc] at he; subst he; decide) (by decide),
+    by decide +kernel⟩
+
+-- non-vacuity of `pass_limits_contain_pos`: a segment of a pass after the sweep (limit tightened to 12 by the obstacle)
+example : ∃ s ∈ passSegs false false true [⟨.shape, ⟨-5, -8, 5, 8⟩, ⟨-5, -8, 5, 8⟩, true⟩, ⟨.shape, ⟨8, 12, 12, 20⟩, ⟨8, 12, 12, 20⟩, true⟩] 0
+      [{ zc with cache := [] }], s.seg.minLim = 12 ∧ s.seg.pos = 20 ∧ s.seg.minLim ≤ s.seg.pos :=
+  have hm : (⟨2, 3, ⟨7, 10, 30, 20, 12, 35, false, true, false, false, false, false, []⟩⟩ : MSeg) ∈
+      passSegs false false true [⟨.shape, ⟨-5, -8, 5, 8⟩, ⟨-5, -8, 5, 8⟩, true⟩, ⟨.shape, ⟨8, 12, 12, 20⟩, ⟨8, 12, 12, 20⟩, true⟩] 0
+        [{ zc with cache := [] }] := by decide +kernel
+  ⟨_, hm, rfl, rfl, (pass_limits_contain_pos false false true _ 0 _ _ hm (by decide +kernel) (by decide +kernel)).1⟩
+
+-- non-vacuity of `channel_bounds_are_facing_obstacle_sides`: hypotheses hold on the witness below, a bound exists
+example : (∀ o ∈ [(⟨5, 4, 6, -5, 15⟩ : SO), ⟨4, 0, 8, -5, 15⟩], o.amin ≤ o.amax) ∧
+    (6 : Rat) ∈ scanMinBounds false [⟨5, 4, 6, -5, 15⟩, ⟨4, 0, 8, -5, 15⟩] 10 0 10 := by
+  refine ⟨?_, by decide +kernel⟩
+  intro o ho; simp at ho; rcases ho with rfl | rfl <;> decide +kernel
+
 end AdaptaVerif.Props.C10Segs
